@@ -7,6 +7,8 @@ import (
 	"reflect"
 	"strconv"
 	"strings"
+	"sync"
+	"time"
 
 	"github.com/google/martian/v3"
 	"github.com/google/martian/v3/har"
@@ -145,7 +147,94 @@ func multi(t []string) core.Result {
 	var outcome []string
 	var failure string
 	var failSig string
+	logOne := func(h *heldMsg) {
+		if h.a.Req {
+			h.err = modReq(h.reqA)
+		} else {
+			h.err = modRes(h.resA)
+		}
+		h.logged = true
+	}
+	writeOne := func(h *heldMsg) string {
+		var outA, outB bytes.Buffer
+		var hA, hB head
+		var werrA, werrB error
+		if h.a.Req {
+			werrA, werrB = h.reqA.Write(&outA), h.reqB.Write(&outB)
+			hA, hB = headOfReq(h.reqA, false), headOfReq(h.reqB, false)
+			hA.trailer, hB.trailer = msggen.SortedKV(h.reqA.Trailer), msggen.SortedKV(h.reqB.Trailer)
+			if h.reqA.Close != h.reqB.Close || !reflect.DeepEqual(h.reqA.Header, h.reqB.Header) {
+				hA.line += " [close/header differ]"
+			}
+		} else {
+			werrA, werrB = h.resA.Write(&outA), h.resB.Write(&outB)
+			hA, hB = headOfRes(h.resA, false), headOfRes(h.resB, false)
+			hA.trailer, hB.trailer = msggen.SortedKV(h.resA.Trailer), msggen.SortedKV(h.resB.Trailer)
+			if h.resA.Close != h.resB.Close || !reflect.DeepEqual(h.resA.Header, h.resB.Header) {
+				hA.line += " [close/header differ]"
+			}
+		}
+		d := forwardedDiff(h.a.Req, outA.Bytes(), outB.Bytes(), werrA, werrB)
+		if d == "" {
+			d = hA.diff(hB)
+		}
+		return d
+	}
+	if sched == "conc" {
+		// concurrent exchanges: every message is handed to the logger by its own goroutine, all at
+		// once; when all loggers have returned, every message is written out by its own goroutine
+		for _, h := range ms {
+			if bad := build(h); bad != "" {
+				return core.Result{Impl: "gen-mismatch " + bad}
+			}
+		}
+		phase := func(f func(i int, h *heldMsg)) bool {
+			start := make(chan struct{})
+			var wg sync.WaitGroup
+			for i, h := range ms {
+				wg.Add(1)
+				go func(i int, h *heldMsg) {
+					defer wg.Done()
+					defer func() { recover() }()
+					<-start
+					f(i, h)
+				}(i, h)
+			}
+			close(start)
+			done := make(chan struct{})
+			go func() { wg.Wait(); close(done) }()
+			select {
+			case <-done:
+				return true
+			case <-time.After(20 * time.Second):
+				return false
+			}
+		}
+		if !phase(func(_ int, h *heldMsg) { logOne(h) }) {
+			return core.Result{Impl: "hang", Fail: "concurrent logger calls did not return within 20 s", Sig: "c15:concurrent-log-hang:" + logger}
+		}
+		diffs := make([]string, k)
+		if !phase(func(i int, h *heldMsg) { diffs[i] = writeOne(h) }) {
+			return core.Result{Impl: "hang", Fail: "concurrent writes did not return within 20 s", Sig: "c15:concurrent-write-hang:" + logger}
+		}
+		for i, d := range diffs {
+			if d != "" {
+				outcome = append(outcome, "differs")
+				if failure == "" {
+					failSig = "c15:held-message-differs:" + logger
+					failure = fmt.Sprintf("message %d of %d logged concurrently through one %s logger was written out differing from its unlogged twin: %s", i, k, logger, d)
+				}
+			} else {
+				outcome = append(outcome, "same")
+			}
+		}
+		core.Count("multi:conc")
+		sched = ""
+	}
 	for _, ev := range strings.Split(sched, ",") {
+		if sched == "" {
+			break
+		}
 		if len(ev) < 2 {
 			return core.Result{Impl: "bad-op"}
 		}
@@ -154,49 +243,17 @@ func multi(t []string) core.Result {
 			return core.Result{Impl: "bad-op"}
 		}
 		h := ms[i]
+		if h.reqA == nil && h.resA == nil {
+			if bad := build(h); bad != "" {
+				return core.Result{Impl: "gen-mismatch " + bad}
+			}
+		}
 		switch ev[0] {
 		case 'L':
-			if h.reqA == nil && h.resA == nil {
-				if bad := build(h); bad != "" {
-					return core.Result{Impl: "gen-mismatch " + bad}
-				}
-			}
-			if h.a.Req {
-				h.err = modReq(h.reqA)
-			} else {
-				h.err = modRes(h.resA)
-			}
-			h.logged = true
+			logOne(h)
 			core.Count("multi:log:" + logger)
 		case 'W':
-			if h.reqA == nil && h.resA == nil {
-				if bad := build(h); bad != "" {
-					return core.Result{Impl: "gen-mismatch " + bad}
-				}
-			}
-			var outA, outB bytes.Buffer
-			var hA, hB head
-			var werrA, werrB error
-			if h.a.Req {
-				werrA, werrB = h.reqA.Write(&outA), h.reqB.Write(&outB)
-				hA, hB = headOfReq(h.reqA, false), headOfReq(h.reqB, false)
-				hA.trailer, hB.trailer = msggen.SortedKV(h.reqA.Trailer), msggen.SortedKV(h.reqB.Trailer)
-				if h.reqA.Close != h.reqB.Close || !reflect.DeepEqual(h.reqA.Header, h.reqB.Header) {
-					hA.line += " [close/header differ]"
-				}
-			} else {
-				werrA, werrB = h.resA.Write(&outA), h.resB.Write(&outB)
-				hA, hB = headOfRes(h.resA, false), headOfRes(h.resB, false)
-				hA.trailer, hB.trailer = msggen.SortedKV(h.resA.Trailer), msggen.SortedKV(h.resB.Trailer)
-				if h.resA.Close != h.resB.Close || !reflect.DeepEqual(h.resA.Header, h.resB.Header) {
-					hA.line += " [close/header differ]"
-				}
-			}
-			d := forwardedDiff(h.a.Req, outA.Bytes(), outB.Bytes(), werrA, werrB)
-			if d == "" {
-				d = hA.diff(hB)
-			}
-			if d != "" {
+			if d := writeOne(h); d != "" {
 				outcome = append(outcome, "differs")
 				if failure == "" {
 					failSig = "c15:held-message-differs:" + logger
@@ -411,6 +468,10 @@ func multiCases(r *core.Rand, tier string, emit func([]string)) {
 			links = append(links, link)
 			core.Count("multimsg:" + s.Class())
 		}
-		emit([]string{multiOp(l.name, o1, o2, Schedule(r, k, l.name != "har"), ms, modes, links)})
+		sched := Schedule(r, k, l.name != "har")
+		if r.Chance(1, 5) {
+			sched = "conc"
+		}
+		emit([]string{multiOp(l.name, o1, o2, sched, ms, modes, links)})
 	}
 }
